@@ -21,5 +21,25 @@ for d in /verif/seeded/*/; do
   rm -f /tmp/demo_orig_$id /tmp/demo_mut_$id
   git -C /repo worktree remove --force $wt
 done
+# changes that had to be ported onto a repaired function: the ported form is confirmed on the current HEAD
+for d in /verif/seeded/*/; do
+  id=$(basename $d); [ -f $d/patch_ported.diff ] || continue
+  [ -f $d/confirm_ported.log ] && grep -q "^RESULT" $d/confirm_ported.log && continue
+  wt=/tmp/wt_confirm_${id}_ported
+  git -C /repo worktree remove --force $wt 2>/dev/null
+  git -C /repo worktree add -q --detach $wt HEAD || continue
+  (
+    cd $wt
+    g++ -std=c++14 -O1 -I$wt/include $d/demo.cpp -o /tmp/demo_orig_$id -lz -lbz2 -lexpat -lpthread 2>/dev/null; /tmp/demo_orig_$id >/dev/null 2>&1; orig=$?
+    git apply $d/patch_ported.diff || { echo "RESULT $id ported patch does not apply on HEAD"; exit; }
+    g++ -std=c++14 -O1 -I$wt/include $d/demo.cpp -o /tmp/demo_mut_$id -lz -lbz2 -lexpat -lpthread 2>/dev/null; /tmp/demo_mut_$id >/dev/null 2>&1; mut=$?
+    cmake -G Ninja -B build -DCMAKE_BUILD_TYPE=RelWithDebInfo -DCMAKE_CXX_FLAGS=-Wno-error -DBUILD_EXAMPLES=ON -DBUILD_DATA_TESTS=ON -DBUILD_BENCHMARKS=OFF >/dev/null 2>&1
+    ninja -C build -j6 >/dev/null 2>&1; b=$?
+    t=$(ctest --test-dir build -j6 --timeout 900 2>&1 | grep "tests passed")
+    echo "RESULT $id (ported) base=$(git -C /repo rev-parse --short HEAD) demo_without_change_exit=$orig demo_with_change_exit=$mut build_rc=$b tests: $t"
+  ) > $d/confirm_ported.log 2>&1
+  rm -f /tmp/demo_orig_$id /tmp/demo_mut_$id
+  git -C /repo worktree remove --force $wt
+done
 git -C /repo worktree prune
 grep -h "^RESULT" /verif/seeded/*/confirm.log
